@@ -225,6 +225,9 @@ def brackets_encode(treebank, rng=None, empty_root=False, layout='line',
 
     def enc(n, is_root):
         if not n.children:
+            if n.attrs.get('emptypos'):
+                # "(word)": a token without POS tag (brackets_emptypos)
+                return '(' + leaf_text(n) + ')'
             return '(' + ws('opt') + label_of(n) + ws('req') + leaf_text(n) \
                 + ws('opt') + ')'
         lab = '' if (is_root and empty_root) else label_of(n)
